@@ -351,6 +351,15 @@ class Taint:
                     for rt in (n for n in ctx.m.walk_own(g.node) if isinstance(n, ast.Return) and n.value is not None):
                         r = join(r, self._tuple_elem(g, rt.value, pos, rt, depth + 1))
                 return r or TAINT
+        if isinstance(src, ast.Subscript) and isinstance(src.value, ast.Name) and not isinstance(src.slice, ast.Slice):
+            # a, b = cache[key]: element pos of the tuples stored in the local container
+            r = None
+            for st in ctx.m.walk_own(f.node):
+                if isinstance(st, ast.Assign) and isinstance(st.targets[0], ast.Subscript) and isinstance(st.targets[0].value, ast.Name) and st.targets[0].value.id == src.value.id:
+                    r = join(r, self._tuple_elem(f, st.value, pos, st, depth + 1))
+            return r or TAINT
+        if isinstance(src, ast.IfExp):
+            return join(self._tuple_elem(f, src.body, pos, at, depth + 1), self._tuple_elem(f, src.orelse, pos, at, depth + 1))
         return TAINT
 
     def _container(self, f, name, at, depth, which="value"):
